@@ -248,14 +248,14 @@ def replay_case(ctx, case, combo, model=None):
     explicit, conserve, sort_legs = combo['explicit'], combo['conserve'], combo['sort']
     cfg, decls, obs = case.cfg, case.decls, case.obs
     nn = bool(obs['nn']) and (not case.infinite or case.cells >= 2)
-    opts = dict(explicit=explicit, conserve=conserve, sort=sort_legs)
+    opts = dict(explicit=explicit, conserve=conserve, sort=sort_legs, ints=bool(combo.get('ints')))
     if not np.any(case.expected(explicit, True)):
         # precondition: tenpy does not build an MPO for a model whose stored terms cancel completely (H = 0)
         ctx.replay_actions['C10.skipped-empty-model'] = ctx.replay_actions.get('C10.skipped-empty-model', 0) + 1
         return None
     try:
         M = model if model is not None else hm.build_model(cfg, decls, explicit_plus_hc=explicit, conserve=conserve, nn=nn,
-                                                          sort_mpo_legs=sort_legs)
+                                                          sort_mpo_legs=sort_legs, int_strengths=bool(combo.get('ints')))
         if model is not None:
             nn = nn and hasattr(M, 'H_bond')
     except Exception as e:  # the documented interface accepts every declaration TLC generates
@@ -347,6 +347,15 @@ def replay_case(ctx, case, combo, model=None):
                 r = hm.boundary_residual(got - represented, dims)
                 scale = max(1.0, float(np.max(np.abs(represented))))
                 compare(ctx, case, 'calc_H_MPO_from_bond', np.array([[0.0 if r <= 1e-9 * scale else r]]), np.zeros((1, 1)), opts)
+        def plain_mpo_model_bonds():
+            from tenpy.models.model import MPOModel
+            return MPOModel(M.lat, M.H_MPO).calc_H_bond_from_MPO()
+        Hb3 = attempt(ctx, case, 'MPOModel.calc_H_bond_from_MPO', opts, plain_mpo_model_bonds)
+        if Hb3 is not None:
+            for b in range(1, len(bonds) + 1):
+                exp = hm.dense_of_sparse(bonds[b - 1]) / 2
+                rep('MPOModel.calc_H_bond_from_MPO', lambda: hm.bond_matrix(Hb3[b % N], sites[(b - 1) % N], sites[b % N]), exp,
+                    o=dict(opts, bond=b))
         Hb2 = attempt(ctx, case, 'calc_H_bond_from_MPO', opts, M.calc_H_bond_from_MPO)
         if Hb2 is not None:
             for b in range(1, len(bonds) + 1):
@@ -384,6 +393,14 @@ def replay_options(ctx, case, M, opts):
                 ed.build_full_H_from_bonds()
                 out.append(hm.full_H_matrix(ed))
             return out
+        if not case.infinite:
+            def grouped_exporter():
+                M2 = M.copy()
+                M2.group_sites(2)
+                return np.asarray(ted.get_numpy_Hamiltonian(M2), dtype=complex)
+            got = attempt(ctx, case, 'group_sites.get_numpy_Hamiltonian', opts, grouped_exporter)
+            if got is not None:
+                compare(ctx, case, 'group_sites.get_numpy_Hamiltonian', got, represented, opts)
         got = attempt(ctx, case, 'group_sites', opts, grouped)
         if got is not None:
             compare(ctx, case, 'group_sites.H_MPO', got[0], stored, opts)
@@ -429,9 +446,9 @@ def replay_options(ctx, case, M, opts):
 def combos_for(ctx, case, key, full=False):
     """Representation options to try for a case: always the plain one, plus seeded others."""
     base = dict(explicit=False, conserve=None, sort=False)
-    others = [dict(explicit=e, conserve=c, sort=s) for e in (False, True) for c in [None] + conserve_options(case, e)
-              for s in (False, True)]
-    others = [o for o in others if o != base]
+    others = [dict(explicit=e, conserve=c, sort=s, ints=(_h(key, e, c, s) % 4 == 0)) for e in (False, True)
+              for c in [None] + conserve_options(case, e) for s in (False, True)]
+    others = [o for o in others if (o['explicit'], o['conserve'], o['sort']) != (False, None, False)]
     if full:
         return [base] + others
     k = _h(ctx.seed, key)
@@ -966,6 +983,28 @@ def run_canary(ctx, trace_items):
         raise core.MachineryError('canary: corrupted data was not rejected (%r)' % (kinds,))
 
 
+def run_predefined_sanity(ctx, items):
+    """MPO.test_sanity() of predefined models, including charge structures outside the tables of the spec
+    (dipole conservation: charges shifted from unit cell to unit cell) with and without sort_mpo_legs."""
+    from tenpy.models.spins import DipolarSpinChain
+    todo = [(it[5], it[0]['mps'], False, it[4]) for it in items[::4]]
+    for bc in ('finite', 'infinite'):
+        for L in (2, 3):
+            for sml in (False, True):
+                params = dict(L=L if bc == 'infinite' else 6, S=1, J3=1., J4=.5, bc_MPS=bc, sort_charge=True, sort_mpo_legs=sml)
+                todo.append(('DipolarSpinChain', bc, sml, lambda params=params: DipolarSpinChain(dict(params))))
+    for label, bc, sml, builder in todo:
+        ctx.case(('c10sanity', label, bc, sml), action='C10.test_sanity')
+        try:
+            with warnings.catch_warnings():
+                warnings.simplefilter('ignore')
+                M = builder()
+                M.H_MPO.test_sanity()
+        except Exception as e:
+            ctx.violation(dict(kind='sanity', spec='ModelDecl', rep='H_MPO.test_sanity', model=label.split('(')[0], sort_mpo_legs=bool(sml),
+                               mps=bc, error=type(e).__name__), dict(model=label, bc_MPS=bc, sort_mpo_legs=sml, error=repr(e)[:400]))
+
+
 def run_predefined_replay(ctx, items):
     """Predefined models: the declarations recorded from their add_* calls are evaluated by TLC (spec_obs) and every
     representation of the real model instance is compared with that exact operator."""
@@ -1028,13 +1067,14 @@ def check(ctx):
         # long multi-site couplings on infinite chains with a one/two-site unit cell (strings that start outside the
         # first unit cell and wrap around it); every one of these models also goes to the TRACE stage
         long_items = []
-        run_replay_mc(ctx, 'LatticesLong', 1, 'ModelDecl-long', long_items, stride=1, profile='long', need_all_actions=False,
+        run_replay_mc(ctx, 'LatticesLong1' if quick else 'LatticesLong', 1, 'ModelDecl-long', long_items, stride=1, profile='long',
+                      need_all_actions=False,
                       trace_all=True, invariants=['TermViewEqualsOpView', 'StoredHalf', 'GraphSemantics'])
         if not long_items:
             raise core.MachineryError('no long multi-site coupling was generated')
         trace_items.extend(long_items)
     if not only or 'sim' in only:
-        run_replay_sim(ctx, 'LatticesQuick' if quick else 'LatticesFull', 3, 100 if quick else 2400, trace_items)
+        run_replay_sim(ctx, 'LatticesQuick' if quick else 'LatticesFull', 3, 70 if quick else 2400, trace_items)
     if not only or 'trace' in only:
         if not trace_items:
             raise core.MachineryError('no models for the TRACE stage')
@@ -1043,6 +1083,7 @@ def check(ctx):
         pre = predefined_items(ctx)
         run_trace(ctx, pre, 'TraceMPOGraph-predefined')
         run_predefined_replay(ctx, pre)
+        run_predefined_sanity(ctx, pre)
     if not only or 'canary' in only:
         run_canary(ctx, trace_items)
     ctx.exhaustive = False
